@@ -569,4 +569,27 @@ def vany(it):
     return False
 
 
-BUILTIN_SHADOWS = {'float': VFloat, 'int': VInt, 'str': vstr, 'type': vtype, 'all': vall, 'any': vany}
+# Identity model for short-lived objects. Python only promises that id() is unique among objects whose lifetimes overlap: an object built
+# after another one has been freed may get the same id. CPython often, but not always, recycles the address; when a harness switches the
+# model on, id() of an Ellipsoid whose predecessor is already dead (weak reference cleared) returns the predecessor's identity - the
+# adversarial choice the language allows. With the model off (default) id() is the interpreter's.
+ID_MODEL = {'on': False, 'prev': None, 'const': 0x7f00dead0000}
+
+
+def vid(o):
+    import weakref
+    if ID_MODEL['on'] and type(o).__name__ == 'Ellipsoid':
+        prev = ID_MODEL['prev']
+        alive = prev() if prev is not None else None
+        if alive is None:
+            try:
+                ID_MODEL['prev'] = weakref.ref(o)
+            except TypeError:
+                return builtins.id(o)
+            return ID_MODEL['const']
+        if alive is o:
+            return ID_MODEL['const']
+    return builtins.id(o)
+
+
+BUILTIN_SHADOWS = {'float': VFloat, 'int': VInt, 'str': vstr, 'type': vtype, 'all': vall, 'any': vany, 'id': vid}
